@@ -1,7 +1,7 @@
 #!/bin/bash
 # DEVELOPMENT RECORD: confirms a sub-agent round-3 seeded change in its scratch worktree under /tmp/seed3 (removed after the round); kept to show what "confirmed" meant.
 # demo passes on the original, fails with the patch; touched packages' existing tests pass with the patch.
-id=$1; wt=/tmp/seed3/$id; out=/tmp/seed3/out/$id
+id=$1; S=${SEEDDIR:-/tmp/seed3}; wt=$S/$id; out=$S/out/$id
 export GOFLAGS=-mod=mod GOPROXY=off
 cd $wt || exit 2
 git checkout -q -- . ; git clean -fdq
@@ -10,6 +10,7 @@ cp $out/$demofile $wt/$demo
 democmd=$(python3 -c "import json;print(json.load(open('$out/meta.json')).get('demo_cmd',''))")
 runpat=$(echo "$democmd" | grep -o "\-run [^ ]*" | head -1 | tr -d "'\"")
 [ -z "$runpat" ] && runpat="-run Demo"
+rm -rf /tmp/sdns_temp*
 echo "== demo on original (expect PASS)"; go test -vet=off -count=1 $runpat $pkg 2>&1 | tail -3; r1=${PIPESTATUS[0]}
 git apply $out/patch.diff || { echo "PATCH DOES NOT APPLY"; exit 2; }
 echo "== build with patch"; go build ./... 2>&1 | tail -3; rb=${PIPESTATUS[0]}
